@@ -1649,7 +1649,13 @@ impl Engine for Net {
         let faulted = |s: &str| s.starts_with("panic") || s.starts_with("no-recipient") || s.starts_with("timeout");
         // after a panic / missing recipient / timeout the other workers stop at an arbitrary point: only the error
         // (kind and attribution) is compared
-        impl_r == model_r || impl_r == "void" || (stalled(impl_r) && stalled(model_r)) || (faulted(model_r) && first(impl_r) == first(model_r))
+        // (the same holds for what shows up later: a handler another worker was still running when the failing call
+        // returned writes to its sinks afterwards, and the next call — which answers Terminated — collects that output)
+        impl_r == model_r
+            || impl_r == "void"
+            || (stalled(impl_r) && stalled(model_r))
+            || (faulted(model_r) && first(impl_r) == first(model_r))
+            || (first(impl_r) == "terminated" && first(model_r) == "terminated")
     }
     fn blame(&self, req: &str, impl_r: &str, model_r: &str) -> Vec<&'static str> {
         // result kinds and report contents are fixed by C06; the multiset of handler invocations of a completed
